@@ -474,6 +474,14 @@ def run(prog: Program) -> Results:
     for f in sub.findings:
         if f.rule == "R-C16-1":
             res.add("R-C07-4", f.key, f.where, f.message)
+    st162 = sub.rules.get("R-C16-2")
+    r7 = res.rule("R-C07-7", "the value is judged as supplied: the CLI hands VALUE to set_value unmodified and writes nothing but its "
+                  "result (shared with R-C16-2) — a repaired value would pass the validity check in place of the invalid one", floor=2)
+    if st162:
+        r7.instances, r7.obligations, r7.discharged = st162.instances, st162.obligations, st162.discharged
+    for f in sub.findings:
+        if f.rule == "R-C16-2":
+            res.add("R-C07-7", f.key, f.where, f.message)
     res.analysed_functions.add("main")
     # ---------------------------------------------------------------- R-C07-5 the shape gate cannot be bypassed
     r5 = res.rule("R-C07-5", "the document's top-level expression becomes an edit target only through the shape gate "
